@@ -103,29 +103,41 @@ Proof.
 Qed.
 
 (* ---------------------------------------------------------------------------------------------- the cursor *)
+(* since repository commit 818e997 an end tag moves the cursor only when it matches the innermost open tag: the cursor is
+   always the paragraph or one of the spans below it, as many levels down as there are open tags *)
 Definition cursor_of (open : nat) : srt_cursor := match open with O => CP | S d => CSpan d end.
+Definition srt_cur_inv (c : srt_cur) : Prop := sc_parent c = cursor_of (length (sc_open c)).
 
-Lemma srt_cursor_wellnested attached es : forall open,
-  stray_end_from open es = false -> srt_font_novalue es = false ->
-  is_internal (srt_cursor_loop attached (cursor_of open) es) = false.
+Lemma srt_cursor_step_inv attached c e :
+  srt_cur_inv c ->
+  match srt_cursor_step attached c e with
+  | inl c' => srt_cur_inv c'
+  | inr o => is_internal o = true -> match e with EvStart _ (Some ColorNoValue) => True | _ => False end
+  end.
 Proof.
-  induction es as [|e rest IH]; intros open Hs Hf; [reflexivity|].
-  simpl. destruct e as [f| |].
-  - (* start tag *)
-    assert (A : accepts_inline (cursor_of open) = None) by (destruct open; reflexivity).
-    unfold srt_cursor_step. rewrite A.
-    assert (C : (match cursor_of open with CSpan d => CSpan (S d) | _ => CSpan O end) = cursor_of (S open)) by (destruct open; reflexivity).
-    rewrite C. simpl in Hs. unfold srt_font_novalue in Hf. simpl in Hf.
-    destruct f as [[| | |]|]; simpl in Hf; try discriminate; try reflexivity; apply IH; assumption.
-  - (* end tag *)
-    simpl in Hs. destruct open as [|d]; [discriminate|].
-    assert (U : up attached (cursor_of (S d)) = inl (cursor_of d)) by (destruct d; reflexivity).
-    unfold srt_cursor_step. rewrite U. apply IH; assumption.
-  - (* data *)
-    assert (A : accepts_inline (cursor_of open) = None) by (destruct open; reflexivity).
-    unfold srt_cursor_step. rewrite A. apply IH; assumption.
+  unfold srt_cur_inv. intro I. destruct c as [p open]; simpl in I; subst p.
+  destruct e as [tag f|tag|]; simpl.
+  - assert (A : accepts_inline (cursor_of (length open)) = None) by (destruct open; reflexivity). rewrite A.
+    assert (C : (match cursor_of (length open) with CSpan d => CSpan (S d) | _ => CSpan O end) = cursor_of (S (length open)))
+      by (destruct open; reflexivity).
+    rewrite C. destruct f as [[| | |]|]; simpl; auto; discriminate.
+  - destruct open as [|top rest]; [reflexivity|].
+    destruct (top =? tag); [|reflexivity]. destruct rest; reflexivity.
+  - assert (A : accepts_inline (cursor_of (length open)) = None) by (destruct open; reflexivity). rewrite A. reflexivity.
+Qed.
+
+Lemma srt_cursor_loop_partial attached es : forall c,
+  srt_cur_inv c -> srt_font_novalue es = false -> is_internal (srt_cursor_loop attached c es) = false.
+Proof.
+  induction es as [|e rest IH]; intros c I Hf; [reflexivity|].
+  unfold srt_font_novalue in Hf. simpl in Hf. apply orb_false_iff in Hf as [He Hr].
+  simpl. pose proof (srt_cursor_step_inv attached c e I) as S.
+  destruct (srt_cursor_step attached c e) as [c'|o].
+  - apply IH; assumption.
+  - destruct (is_internal o) eqn:Io; [|reflexivity]. specialize (S eq_refl).
+    destruct e as [tag [[| | |]|]| |]; try contradiction. discriminate.
 Qed.
 
 Lemma srt_cursor_partial attached es :
-  srt_stray_end es = false -> srt_font_novalue es = false -> is_internal (srt_cursor_run attached es) = false.
-Proof. intros. apply (srt_cursor_wellnested attached es O); assumption. Qed.
+  srt_font_novalue es = false -> is_internal (srt_cursor_run attached es) = false.
+Proof. intros. apply srt_cursor_loop_partial; [reflexivity|assumption]. Qed.
